@@ -10,6 +10,7 @@ Canonical atoms:
   DUP(K)      duplicates has K        CACHED(K)    cache has K
 A store or a hit is *admitted* iff  WC | UNIVERSE  holds (the key describes the universe the value lives in)."""
 import evalnode as E
+import norm
 import q
 import setalg
 import terms
@@ -219,6 +220,17 @@ class ScopeHooks(E.Hooks):
             ev.st.may = frozenset(t for t in ev.st.may if t[0] != "scope")
 
 
+def pc_false(pc):
+    """The path condition contains a literally false entry (the site is on a branch that partial evaluation ruled out)."""
+    nz = norm.Normalizer()
+    for c in pc:
+        if c[0] == "if":
+            v = nz(c[1])
+            if v[0] == "lit" and isinstance(v[1], bool) and v[1] != bool(c[2]):
+                return True
+    return False
+
+
 def check_scope_pairing(prog, rep, rule, en):
     hooks = ScopeHooks(en.hooks, en.params[2])
     eng = terms.Engine(prog, inline=True, hooks=hooks)
@@ -227,6 +239,20 @@ def check_scope_pairing(prog, rep, rule, en):
     if not inserts:
         rep.unresolved(rule, "eval_node/scope-insert", f"{en.fn.file}:{en.fn.line}", "no free_var_domains.insert found")
         return
+    # a jump `@{x}:` is no quantifier: it must not touch the scope entry of x (which belongs to the enclosing quantifier of x)
+    try:
+        sp = eng.specialise(en.fn, {en.params[0]: E.node_term(E.shape_hybrid("Jump", ("lit", "x"), None, ("param", "#c")))})
+    except Exception:
+        sp = None
+    if sp is None:
+        rep.unresolved(rule, "eval_node/scope:jump", f"{en.fn.file}:{en.fn.line}", "eval_node could not be evaluated for a jump node")
+    else:
+        touched = [x for x in sp.all_sites() if x.kind == "mcall" and x.name in ("insert", "remove", "clear", "retain", "extend", "entry", "get_mut")
+                   and x.args and q.place_is(x.args[0], en.params[2], CTX_SCOPE) and not pc_false(x.pc)]
+        rep.check(not touched, rule, "eval_node/scope:jump", touched[0].where() if touched else f"{en.fn.file}:{en.fn.line}",
+                  "evaluating a jump leaves free_var_domains alone",
+                  f"for a jump node eval_node performs free_var_domains.{touched[0].name if touched else ''}(..): the entry of the variable belongs to its enclosing "
+                  "quantifier; overwriting / removing it changes the cache keys (and the restriction they name) for the rest of that quantifier's scope")
     for idx, (term, pc, may, must, node, kind) in enumerate(summ.returns):
         open_ = [t for t in may if t[0] == "scope"]
         where = f"{en.fn.file}:{node.get('sp', [0])[0]}"
@@ -330,6 +356,9 @@ def check_key_recipe(prog, rep, rule, en, reader_key):
             # the counter map, recognised by its type: HashMap<(formula text, domain map), i32> - a local, a field, a parameter
             ty_ = str((st.argnodes[0] or {}).get("ty", "")).replace("&mut ", "").replace("&", "").strip() if st.argnodes else ""
             is_dup = ty_.startswith("std::collections::HashMap<(std::string::String, std::collections::BTreeMap<") and ty_.endswith(", i32>")
+            import re
+            if not is_dup and re.fullmatch(r"std::collections::HashMap<[A-Z]\w*, i32>", ty_):
+                is_dup = True               # the same map seen inside a generic counting helper (`HashMap<K, i32>`) inlined into the writer
             if is_dup:
                 wkeys.append(st)
     if not wkeys:
